@@ -72,6 +72,7 @@ type PayloadOpts struct {
 	IllRelPerTen   int // chance that a relationship's data has the wrong shape
 	AllFieldsOften bool
 	Canonical      bool // attribute literals are what encoding/json writes for a generated value
+	OddIdentPerTen int  // chance that an identifier of a linkage names another type than the target, or none
 }
 
 // ResourcePayload draws the JSON text of a resource object for the type, with
@@ -81,6 +82,26 @@ func ResourcePayload(t *rapid.T, ts *TypeSpec, o PayloadOpts) *PayloadCase {
 	p.ID = IDString(t, "pid", true)
 
 	all := o.AllFieldsOften && rapid.Bool().Draw(t, "allfields")
+
+	// The identifiers of a linkage name the relationship's target type; now
+	// and then one names something else, or nothing (the statement of no
+	// property says what must happen then, only that the entry points agree).
+	identJSON := func(typ, id string) string {
+		if o.OddIdentPerTen == 0 || rapid.IntRange(0, 9).Draw(t, "oddident") >= o.OddIdentPerTen {
+			return identJSON(typ, id)
+		}
+
+		switch rapid.IntRange(0, 3).Draw(t, "oddident-kind") {
+		case 0:
+			return fmt.Sprintf(`{"id":%s}`, QuoteJSON(id))
+		case 1:
+			return identJSON("nope", id)
+		case 2:
+			return fmt.Sprintf(`{"type":7,"id":%s}`, QuoteJSON(id))
+		}
+
+		return identJSON(ts.Name+"x", id)
+	}
 
 	attrParts := []string{}
 
